@@ -285,6 +285,18 @@ def shortcut_witness(it, r, og, lv, params):
     thetas = [0.0, math.pi, math.pi / 2, 1.1, 2.3]
     phis = [0.0, 0.4, 2.9]
     hit = False
+    # a container the guard or the value reads that is filled by stores this evaluation does not replay (a dictionary built entry by
+    # entry, an array filled in a loop): its term shows the empty container only - not evaluable
+    from ..vg import strip_alloc as _sa
+    filled = set()
+    for e in it.events:
+        if e.kind == "store" and e.data["target"][0] == "sub":
+            b = _sa(e.data["target"][1])
+            if b[0] in ("dict", "list") or e.loops:
+                filled.add(b)
+    involved = [c for c, _ in og] + [r.data["value"]]
+    if any(_sa(x) in filled for t_ in involved for x in walk(t_) if isinstance(x, tuple) and x and x[0] in ("dict", "list", "call")):
+        return None
     for th in thetas:
         for ph in phis:
             env = {("sym", params[0]): lv, ("sym", params[1]): th, ("sym", params[2]): ph}
